@@ -56,10 +56,14 @@ A32Msg(a, flags, eltwidth, bmelts) ==
 
 \* ---- the three sections ---------------------------------------------------------------
 \* old: OldTrie(ks); vals[i]: encoded value of key i (all of one width); patch: 0..9
-V3Stream(old, vals, patch) ==
+V3StreamH(old, vals, patch, hp) ==
   LET N     == Len(old)
       ids(P(_)) == SetToSortSeq({i - 1 : i \in {x \in 1..N : P(old[x])}}, <)
-      hver  == IF patch >= 8 THEN <<48, 46, 53, 46, 48 + patch>> ELSE <<49, 46, 48, 46, 48>>
+      \* hp: the header version the stream is stamped with: -1 the writer's own (1.0.0 up to
+      \* 0.5.7, its own version from 0.5.8 on); 0 = "1.0.0"; 8, 9 = "0.5.8", "0.5.9" (the
+      \* combinations of content and header that no release wrote but the loader accepts)
+      hv    == IF hp = -1 THEN (IF patch >= 8 THEN patch ELSE 0) ELSE hp
+      hver  == IF hv >= 8 THEN <<48, 46, 53, 46, 48 + hv>> ELSE <<49, 46, 48, 46, 48>>
       ext   == patch >= 9
       inn   == ids(LAMBDA n : n.inner)
       \* children
@@ -83,6 +87,7 @@ V3Stream(old, vals, patch) ==
   IN StreamOfBody(hver, A32Msg(A32(inn, celts, N, ext), IF bme.present THEN 3 ELSE 0, IF bme.present THEN 16 ELSE 0, bme))
      \o StreamOfBody(hver, A32Msg(A32(stepped, selts, N, ext), 0, 0, NoBits))
      \o StreamOfBody(hver, A32Msg(A32(lf, lelts, N, ext), 0, 0, NoBits))
+V3Stream(old, vals, patch) == V3StreamH(old, vals, patch, -1)
 
 \* ---- the loader's view of a three-section stream ---------------------------------------
 \* split a stream into its sections' bodies (each pbcmpl.Unmarshal reads one header and the
